@@ -1,6 +1,7 @@
 package main
 
 import (
+	"encoding/json"
 	"fmt"
 	"os"
 	"path/filepath"
@@ -567,6 +568,41 @@ func driveFaults(c *hx.Ctx) error {
 	r := c.Rand("faults")
 
 	var specs []faultSpec
+	// committed schedules first: the ones that exposed the two isFatalError defects, and boundary shapes
+	for _, f := range corpusFiles("C07") {
+		var l []struct {
+			Ev      int    `json:"event"`
+			Pos     int    `json:"pos"`
+			Kind    string `json:"kind"`
+			Dir     string `json:"dir"`
+			Off     int    `json:"off"`
+			FromEnd bool   `json:"from_end"`
+			Variant string `json:"variant"`
+			Repeat  int    `json:"repeat"`
+		}
+		raw, err := os.ReadFile(f)
+		if err == nil {
+			err = json.Unmarshal(raw, &l)
+		}
+		if err != nil {
+			c.HarnessError("corpus %s: %v", f, err)
+			continue
+		}
+		for _, k := range l {
+			if k.Ev < 1 || k.Ev > 13 || k.Pos < 0 || k.Pos > 2 {
+				c.HarnessError("corpus %s: event %d / position %d out of range", f, k.Ev, k.Pos)
+				continue
+			}
+			d := p2r
+			if k.Dir == "r2p" {
+				d = r2p
+			}
+			for i := 0; i <= k.Repeat; i++ {
+				specs = append(specs, faultSpec{ev: api.Event(k.Ev), pos: k.Pos, kind: k.Kind, dir: d, off: k.Off, fromEnd: k.FromEnd, variant: k.Variant})
+			}
+			c.Count("faults.corpus", 1+k.Repeat)
+		}
+	}
 	if c.Quick() {
 		// every byte offset of the exchange for three (event, position) pairs drawn from the seed
 		for k := 0; k < 3; k++ {
